@@ -44,6 +44,7 @@ type Oracles struct {
 	WalBound    bool // C13: live frames bounded after each successful sync
 	IdleQuiet   bool // C13: idle syncs stop producing files
 	StrictError bool // any litestream op error is reported (harness visibility)
+	FinalSyncOK bool // C04/C03: the last SyncAndWait of a history (litestream up, nothing pinned) must succeed: replication resumes without manual intervention
 	TraceCk     bool // record checkpointIfNeeded inputs/observed attempts per sync (C13 correspondence)
 	TraceVerify bool // record verify inputs/decision before each sync (C04 correspondence)
 	TraceL0     bool // describe every level-0 file litestream writes (C01/C02 correspondence)
@@ -85,6 +86,12 @@ func Run(h History, or Oracles) (fails []Fail, st RunStats, err error) {
 			or.Classify(h, at, &f)
 		}
 		fails = append(fails, f)
+	}
+	lastSyncwait := -1
+	for i, op := range h.Ops {
+		if op.K == "syncwait" {
+			lastSyncwait = i
+		}
 	}
 	l0Seen := uint64(0)
 	l0Commits := map[uint64]uint32{}
@@ -160,6 +167,9 @@ func Run(h History, or Oracles) (fails []Fail, st RunStats, err error) {
 			if or.StrictError && isLitestreamOp(op.K) {
 				add(i, "litestream-op-error", fmt.Sprintf("%s failed: %s", op, out))
 			}
+		}
+		if or.FinalSyncOK && i == lastSyncwait && out != "ok" && e.LS != nil && e.Reader == nil && e.bgDone == nil {
+			add(i, "sync-keeps-failing", fmt.Sprintf("the final SyncAndWait of the history fails (%s): replication does not resume without manual intervention", trunc(out, 200)))
 		}
 		if op.K == "sync" || op.K == "syncwait" || op.K == "syncwaitreq" {
 			st.Syncs++
@@ -473,6 +483,7 @@ func GenC04(r *hx.Rand, thorough bool) History {
 	ps := h.Cfg.PageSize
 	rounds := 1 + r.Intn(3)
 	saved := false
+	rawSaved := false
 	for k := 0; k < rounds; k++ {
 		for i, n := 0, 1+r.Intn(5); i < n; i++ {
 			h.Ops = append(h.Ops, genAppOp(r, ps))
@@ -486,6 +497,14 @@ func GenC04(r *hx.Rand, thorough bool) History {
 		if !saved && r.Chance(25) {
 			h.Ops = append(h.Ops, Op{K: "save"})
 			saved = true
+		}
+		if !rawSaved && r.Chance(20) {
+			h.Ops = append(h.Ops, Op{K: "savefiles"})
+			rawSaved = true
+			for i, n := 0, 1+r.Intn(3); i < n; i++ {
+				h.Ops = append(h.Ops, genAppOp(r, ps))
+			}
+			h.Ops = append(h.Ops, Op{K: "syncwait"})
 		}
 		switch x := r.Intn(100); {
 		case x < 30: // clean stop, activity, new process
@@ -502,6 +521,10 @@ func GenC04(r *hx.Rand, thorough bool) History {
 			h.Ops = append(h.Ops, Op{K: "up"})
 		case x < 78 && saved: // database replaced by an older version while down
 			h.Ops = append(h.Ops, Op{K: "down"}, Op{K: "replace"})
+			h.Ops = append(h.Ops, downActivity(r, ps)...)
+			h.Ops = append(h.Ops, Op{K: "up"})
+		case x < 84 && rawSaved: // database file and WAL rolled back to an earlier raw copy while down
+			h.Ops = append(h.Ops, Op{K: "down"}, Op{K: "rollbackfiles"})
 			h.Ops = append(h.Ops, downActivity(r, ps)...)
 			h.Ops = append(h.Ops, Op{K: "up"})
 		case x < 88: // local state directory lost while down
